@@ -1,6 +1,8 @@
 """C12 - events of every terminated run form a complete, well-nested span tree.  DESIGN.md section 4/C12."""
 from __future__ import annotations
 
+from hypothesis import strategies as st
+
 from .. import gen
 from ..core import Violation
 from ..observe import AsyncRecorder, Recorder
@@ -26,8 +28,49 @@ RULE = (
 ASSUMPTIONS = ["PAUSED runs are outside the statement (spans stay open by design)", "sibling spans need not obey stack discipline"]
 
 
+def _one_shot(reg, runner_kind, when):
+    from hypergraph.events import AsyncEventProcessor, EventProcessor
+    from hypergraph.events.types import RunEndEvent
+
+    def leave(self):
+        for j, q in enumerate(reg):
+            if q is self:
+                del reg[j]
+                break
+
+    class OneShot(EventProcessor):
+        def on_event(self, event):
+            if when == "run_end" and isinstance(event, RunEndEvent):
+                leave(self)
+
+        def shutdown(self):
+            leave(self)
+
+    class AsyncOneShot(AsyncEventProcessor):
+        def on_event(self, event):
+            OneShot.on_event(self, event)
+
+        async def on_event_async(self, event):
+            OneShot.on_event(self, event)
+
+        def shutdown(self):
+            leave(self)
+
+        async def shutdown_async(self):
+            leave(self)
+
+    return OneShot() if runner_kind == "sync" else AsyncOneShot()
+
+
+@st.composite
+def _case(draw, tier):
+    c = draw(gen.rich_case(tier))
+    c["one_shot_first"] = draw(st.sampled_from([None, None, None, "shutdown", "run_end"]))
+    return c
+
+
 def strategy(tier):
-    return gen.rich_case(tier)
+    return _case(tier)
 
 
 def check_case(case, ev):
@@ -38,6 +81,12 @@ def check_case(case, ev):
     def factory(i, runner_kind):
         r = Recorder() if runner_kind == "sync" else AsyncRecorder()
         recs.append(r)
+        if case.get("one_shot_first"):
+            # a one-shot observer registered BEFORE the recorder that takes itself out of the caller's list when it is shut down
+            # (or when it sees the first RunEnd): the recorder behind it must still get every event and exactly one shutdown
+            reg: list = []
+            reg.extend([_one_shot(reg, runner_kind, case["one_shot_first"]), r])
+            return reg
         return [r]
 
     try:
